@@ -2,7 +2,8 @@
 
     correspond(seed, quick) -> dict(evaluations, disagreements, samples, distribution, ...)
     correspond_conv(seed, quick) -> dict(evaluations, disagreements, samples, ...)   whole conversion (see below)
-    python3 -m vlib.xmlfront [--conv] [--thorough] [--seed N] [--strict-codes] [--hex DOC]
+    correspond_replay(seed, quick) -> dict(...)   the callbacks driven directly with arbitrary event lists (see below)
+    python3 -m vlib.xmlfront [--conv | --replay] [--thorough] [--seed N] [--strict-codes] [--hex DOC]
                                                           prints the disagreements, exits non-zero if there is any
                                                           (--strict-codes: an error-code-only difference counts too;
                                                            used for mutation analysis, 0 on the unchanged tree)
@@ -638,6 +639,206 @@ def correspond_conv(seed=1, quick=True, extra_cases=None, only_extra=False, stri
             "samples": samples, "distribution": dist}
 
 
+# ----------------------------------------------------------------------------------------------
+# replay: the callbacks driven directly with arbitrary event lists (not only what Expat can produce)
+# ----------------------------------------------------------------------------------------------
+
+def _hx(b):
+    if isinstance(b, str):
+        b = b.encode()
+    return b.hex() if b else "-"
+
+
+def ev_start(name, attrs=()):
+    return "S %s 0 %d%s" % (_hx(name), len(attrs), "".join(" %s %s" % (_hx(a), _hx(v)) for a, v in attrs))
+
+
+def ev_end(name):
+    return "E %s 0" % _hx(name)
+
+
+def ev_chars(b):
+    return "C %s" % _hx(b)
+
+
+def ev_decl(version=b"1.0", encoding=None):
+    return "X %s %s" % (_hx(version) if version is not None else "~", _hx(encoding) if encoding is not None else "~")
+
+
+def ev_doctype(name, sysid=None, pubid=None):
+    return "D %s %s %s" % (_hx(name), _hx(sysid) if sysid is not None else "~", _hx(pubid) if pubid is not None else "~")
+
+
+EVERY_KIND = [ev_decl(), ev_decl(b"1.0", b"ISO-8859-1"), ev_doctype(b"wml", b"http://www.wapforum.org/DTD/wml13.dtd", b"-//WAPFORUM//DTD WML 1.3//EN"),
+              ev_doctype(b"x", None, b"-//NOBODY//DTD None//EN"), ev_start(b"p"), ev_start(b"AirSync:|Add", [(b"a", b"v")]), ev_end(b"p"), ev_end(b"x"),
+              ev_chars(b"text"), ev_chars(b"YWJj"), ev_chars(b"!!"), ev_chars(b"\n"), "[", "]", "P 7069 64", ev_start(b"syncml:devinf|DevInf"), ev_end(b"syncml:devinf|DevInf"),
+              ev_start(b"Email2:|ConversationId"), ev_end(b"Email2:|ConversationId"), ev_start(b"Data"), ev_end(b"Data")]
+
+
+def failing_prefixes():
+    """(label, events): every way the callbacks can record an error, with as much state around it as possible"""
+    sync = ev_start(b"AirSync:|Sync")
+    conv = ev_start(b"Email2:|ConversationId")
+    out = []
+    out.append(("unknown-root", [ev_start(b"nobody")]))
+    out.append(("unknown-root-after-doctype", [ev_decl(), ev_doctype(b"x", None, b"-//NOBODY//DTD None//EN"), ev_start(b"nobody", [(b"a", b"b")])]))
+    out.append(("nesting", [ev_start(b"wml")] + [ev_start(b"p")] * 1000))
+    out.append(("nesting-in-cdata-over-cache", [sync] + [ev_start(b"AirSync:|Add")] * 997 + [conv, ev_chars(b"YWJj"), "[", ev_chars(b"c"), ev_start(b"x")]))
+    # the nesting error at a child of a binary element that has cached text: the cache must have been converted BEFORE the
+    # error is recorded (/repo c0648d3), otherwise the next end tag changes the failed state
+    out.append(("nesting-under-cache", [sync] + [ev_start(b"AirSync:|Add")] * 998 + [conv, ev_chars(b"YWJj"), ev_start(b"x")]))
+    out.append(("nesting-under-bad-cache", [sync] + [ev_start(b"AirSync:|Add")] * 998 + [conv, ev_chars(b"!!"), ev_start(b"x")]))
+    out.append(("b64-at-child", [sync, conv, ev_chars(b"!!"), ev_start(b"x")]))
+    out.append(("b64-at-end", [sync, conv, ev_chars(b"!"), ev_chars(b"!"), ev_end(b"Email2:|ConversationId")]))
+    out.append(("b64-blank", [sync, ev_start(b"ComposeMail:|MIME"), ev_chars(b" \n "), ev_end(b"ComposeMail:|MIME")]))
+    out.append(("b64-while-skipping", [ev_doctype(b"SyncML", None, b"-//SYNCML//DTD SyncML 1.2//EN"), ev_start(b"SyncML"), ev_start(b"Email2:|ConversationId")]))   # literal in SyncML: no cache
+    out.append(("internal-text-without-current", [ev_start(b"wml"), "[", ev_end(b"wml"), ev_chars(b"a")]))
+    out.append(("memory-second-root", [ev_start(b"wml"), "[", ev_end(b"wml"), ev_start(b"p")]))
+    out.append(("internal-cdata-without-current", [ev_start(b"wml"), "[", ev_end(b"wml"), "["]))
+    out.append(("internal-end-without-current", [ev_start(b"wml"), "[", ev_end(b"wml"), ev_end(b"wml")]))
+    out.append(("internal-endcdata-without-current", [ev_start(b"wml"), "[", ev_end(b"wml"), "]"]))
+    out.append(("embedded-parse-fails", [ev_doctype(b"SyncML", None, b"-//SYNCML//DTD SyncML 1.2//EN"), ev_start(b"SyncML"), ev_start(b"Data"),
+                                         ev_start(b"syncml:devinf|DevInf"), ev_start(b"a"), ev_end(b"a"), ev_end(b"syncml:devinf|DevInf")]))
+    out.append(("embedded-in-other-language", [ev_start(b"wml"), ev_start(b"syncml:devinf|DevInf"), ev_end(b"syncml:devinf|DevInf")]))
+    out.append(("ddf-in-syncml11", [ev_doctype(b"SyncML", None, b"-//SYNCML//DTD SyncML 1.1//EN"), ev_start(b"SyncML"),
+                                    ev_start(b"syncml:dmddf1.2|MgmtTree"), ev_end(b"syncml:dmddf1.2|MgmtTree")]))
+    return out
+
+
+def replay_cases(seed, quick):
+    from . import gen
+    tj = gen.tables_json()
+    rng = common.Rng(seed, 7301)
+    out = []
+    # 1. every failing prefix followed by every event kind (each kind alone, all in order, random orders)
+    for label, pre in failing_prefixes():
+        out.append(("fail:" + label, pre))
+        for e in EVERY_KIND:
+            out.append(("fail+1:" + label, pre + [e]))
+        out.append(("fail+all:" + label, pre + EVERY_KIND))
+        for _ in range(2 if quick else 12):
+            suffix = [rng.choice(EVERY_KIND) for _ in range(rng.range(5, 60))]
+            out.append(("fail+random:" + label, pre + suffix))
+    # 2. random lists over the names the callbacks treat specially (balanced or not), after a root element
+    langs = [l for l in tj["langs"] if l["root"] and ":" not in l["root"]]
+    texts = [b"x", b"\n", b"YWJj", b"Zg==", b"!!", b" ", b"text/x-vcard", b"text/clear", b"a&b", b"l1\nl2"]
+    for _ in range(150 if quick else 3000):
+        lang = rng.choice(langs)
+        rows = tj["tables"][str(lang["tags"])]["rows"] if lang["tags"] >= 0 else []
+        nss = [r[0] for r in (tj["tables"][str(lang["ns"])]["rows"] if lang["ns"] >= 0 else [])]
+        names = [r[0].encode() for r in rows if re.fullmatch(r"[A-Za-z_][\w.-]*", r[0])] or [b"x"]
+        def nm():
+            n = rng.choice(SPECIAL_NAMES).encode() if rng.chance(2, 5) else rng.choice(names)
+            if nss and rng.chance(1, 2):
+                n = rng.choice(nss).encode() + b"|" + n
+            elif rng.chance(1, 8):
+                n = rng.choice(SPECIAL_NS).encode() + b"|" + n
+            return n
+        evs = []
+        if rng.chance(1, 2):
+            evs.append(ev_decl(b"1.0", rng.choice([None, b"UTF-8", b"ISO-8859-1", b"x-unknown"])))
+        if rng.chance(2, 3):
+            evs.append(ev_doctype(lang["root"].encode(), lang["dtd"].encode() if lang["dtd"] and rng.chance(1, 2) else None,
+                                  lang["pub_text"].encode() if lang["pub_text"] and rng.chance(2, 3) else None))
+        root = lang["root"].encode()
+        evs.append(ev_start((nss[0].encode() + b"|" + root) if nss and rng.chance(1, 2) else root))
+        open_names = [root]
+        for _ in range(rng.range(1, 80)):
+            r = rng.below(20)
+            if r < 6:
+                n = nm()
+                evs.append(ev_start(n, [(b"a%d" % j, b"v") for j in range(rng.below(3))] if rng.chance(1, 4) else ()))
+                open_names.append(n)
+            elif r < 11:
+                n = open_names.pop() if open_names and rng.chance(5, 6) else nm()
+                evs.append(ev_end(n))
+            elif r < 16:
+                evs.append(ev_chars(rng.choice(texts)))
+            elif r == 16:
+                evs.append("[")
+            elif r == 17:
+                evs.append("]")
+            elif r == 18:
+                evs.append("P 7069 64")
+            else:
+                evs.append(rng.choice(EVERY_KIND[:4]))
+        out.append(("random", evs))
+    return out
+
+
+def correspond_replay(seed=1, quick=True):
+    """callbacks of the C driven with arbitrary event lists vs `run init_ctx` of the model: error, skip level, depth of
+    `current`, cached octets, charset, language and the whole tree (also after an error); plus the library-side oracle
+    of the strict sticky-error theorem (STICKY, see harness/xmlfront_replay.c)"""
+    H = common.build_harness("xmlfront_replay")
+    HT = common.build_harness("xmlfront_harness")
+    D = common.build_driver("XmlFront")
+    cs = replay_cases(seed, quick)
+    lines = [" ".join(evs) for _, evs in cs]
+    ans, crashes = common.run_lines(H, lines, shards=min(common.NPROC, max(1, len(lines) // 4)))
+    disagreements, samples = [], []
+    dist = {"kinds": {}, "errors": {}, "sticky_checked": 0, "events": 0}
+    for c in crashes:
+        lo, hi = c["range"]
+        for i in range(lo, hi):
+            if ans[i] is None or not ans[i].startswith("Q "):
+                a1, c1 = common.run_lines(H, [lines[i]], shards=1)
+                if c1:
+                    disagreements.append({"kind": "crash:" + cs[i][0], "doc_hex": "", "events": lines[i][:3000], "c": "harness crashed / sanitizer report rc=%s" % c1[0]["rc"],
+                                          "model": "", "stderr": c1[0]["stderr"][-1500:]})
+                    ans[i] = None
+                else:
+                    ans[i] = a1[0]
+    pending = [i for i, a in enumerate(ans) if a is not None]
+    subs = {i: {} for i in pending}
+    results, tree_answer = {}, {}
+    for rnd in range(MAX_ROUNDS):
+        if not pending:
+            break
+        ml = ["R %d%s %s" % (len(subs[i]), "".join(" %s %s" % (h, a) for h, a in subs[i].items()), lines[i]) for i in pending]
+        mo, _ = common.run_lines(D, ml, shards=min(common.NPROC, max(1, len(ml) // 8)))
+        need, nxt = {}, []
+        for i, o in zip(pending, mo):
+            if o is not None and o.startswith("NEED "):
+                need.setdefault(o[5:], []).append(i)
+                nxt.append(i)
+            else:
+                results[i] = o if o is not None else "bad driver-crash"
+        unknown = [h for h in need if h not in tree_answer]
+        if unknown:
+            a2, _ = common.run_lines(HT, unknown, shards=1)
+            for h, a in zip(unknown, a2):
+                p = split_answer(a)
+                tree_answer[h] = p[2] if p is not None else "T ERR 0"
+        for h, idxs in need.items():
+            for i in idxs:
+                subs[i][h] = sub_answer(tree_answer[h])
+        pending = nxt
+    evaluations = 0
+    for i, a in enumerate(ans):
+        if a is None:
+            continue
+        k, evs = cs[i]
+        q, _, sticky = a.partition(" | STICKY ")
+        m = results.get(i, "bad no-answer")
+        evaluations += 1
+        kk = k.split(":")[0]
+        dist["kinds"][kk] = dist["kinds"].get(kk, 0) + 1
+        dist["events"] += len(evs)
+        err = q.split(" ")[1]
+        dist["errors"][err] = dist["errors"].get(err, 0) + 1
+        if err != "0":
+            dist["sticky_checked"] += 1
+        if len(samples) < 8 and evaluations % 61 == 1:
+            samples.append({"kind": k, "events": lines[i][:200], "c": a[:160], "model": m[:160]})
+        if sticky != "ok":
+            disagreements.append({"kind": "sticky:" + k, "doc_hex": "", "events": lines[i][:3000], "c": a[:800], "model": m[:800],
+                                  "what": "the C changed its state after an error was recorded (strict sticky-error oracle)"})
+        if q != m:
+            disagreements.append({"kind": "replay:" + k, "doc_hex": "", "events": lines[i][:3000], "c": q[:1500], "model": m[:1500]})
+    return {"evaluations": evaluations, "disagreements": disagreements, "samples": samples, "distribution": dist}
+
+
 def main(argv):
     quick = "--thorough" not in argv
     seed = 1
@@ -646,6 +847,13 @@ def main(argv):
     extra = []
     if "--hex" in argv:
         extra = [("cli", bytes.fromhex(argv[argv.index("--hex") + 1]))]
+    if "--replay" in argv:
+        r = correspond_replay(seed, quick)
+        r.setdefault("soft_error_code_differences", 0)
+        for d in r["disagreements"][:40]:
+            print("DISAGREEMENT kind=%s\n  events= %s\n  C     = %s\n  model = %s" % (d["kind"], d["events"][:400], d["c"][:400], d["model"][:400]))
+        print("evaluations=%d disagreements=%d distribution=%s" % (r["evaluations"], len(r["disagreements"]), r["distribution"]))
+        return 1 if r["disagreements"] else 0
     if "--conv" in argv:
         ot = OPTION_TUPLES if extra else []
         r = correspond_conv(seed, quick, extra_cases=[("cli", d, t) for _, d in extra for t in ot], only_extra=bool(extra),
